@@ -197,6 +197,32 @@ def print_assumptions(prop_modules, theorems):
     return res, out
 
 
+def coqchk(prop_files, timeout=2400):
+    """Independent re-check of the compiled property modules (thorough tier), cached by content hash."""
+    h = hashlib.sha256()
+    for dp, dn, fn in sorted(os.walk(COQ)):
+        for f in sorted(fn):
+            if f.endswith(".v"):
+                h.update(open(os.path.join(dp, f), "rb").read())
+    key = h.hexdigest()[:16] + "_" + "_".join(prop_files)
+    cache = os.path.join(BUILD, "coqchk_" + key + ".json")
+    if os.path.exists(cache):
+        r = json.load(open(cache))
+        r["cached"] = True
+        return r
+    t = time.time()
+    with Lock("coqchk"):
+        rc, out = sh(["coqchk", "-silent", "-o", "-Q", "theories", "Juniper", "-Q", "Properties", "JuniperProps"] +
+                     ["JuniperProps." + f for f in prop_files], cwd=COQ, timeout=timeout)
+    axioms = re.findall(r"^\s*\*\s*Axioms:\s*(.*?)(?=^\s*\*|\Z)", out, flags=re.M | re.S)
+    r = {"ok": rc == 0, "wall_s": round(time.time() - t, 1), "axioms_reported": (axioms[0].strip()[:1500] if axioms else "n/a"),
+         "tail": out[-1500:], "cmd": "coqchk -silent -o -Q theories Juniper -Q Properties JuniperProps " + " ".join("JuniperProps." + f for f in prop_files)}
+    if rc == 124:
+        r["ok"] = None      # timeout: inconclusive, not a rejection
+    json.dump(r, open(cache, "w"))
+    return r
+
+
 def theorem_names(prop_files):
     names = []
     for pf in prop_files:
@@ -442,6 +468,12 @@ class Ctx:
             self.proof_broken = "theorems depend on axioms: " + json.dumps(axioms)[:800]
             return False
         self.coverage["discharged"] = len(names)
+        if self.tier == "thorough":
+            self.coverage["coqchk"] = coqchk(prop_files)
+            if self.coverage["coqchk"].get("ok") is False:
+                self.coverage["discharged"] = 0
+                self.proof_broken = "coqchk rejected the compiled theorems: " + self.coverage["coqchk"].get("tail", "")[-600:]
+                return False
         return True
 
     proof_broken = None
